@@ -135,6 +135,7 @@ func cmdFuncs(args []string) {
 
 func dischargeAll(x *Exec, obls []*Obligation, timeout time.Duration, all bool) []SolveResult {
 	results := make([]SolveResult, len(obls))
+	globalFacts = x.GlobalFacts
 	// build queries sequentially (the executor is not thread-safe), solve in parallel
 	queries := make([]*Query, len(obls))
 	for i, ob := range obls {
@@ -174,11 +175,14 @@ func dischargeAll(x *Exec, obls []*Obligation, timeout time.Duration, all bool) 
 
 
 // buildQuery applies the state-hint instantiation of quantifiers.
+var globalFacts []*Term
+
 func buildQuery(ob *Obligation) *Query {
 	if len(ob.Hints) == 0 || ob.Canary || ob.Cover {
-		return &Query{Assume: ob.Assume, Goal: ob.Goal}
+		return &Query{Assume: append(append([]*Term{}, globalFacts...), ob.Assume...), Goal: ob.Goal}
 	}
 	q := &Query{Goal: instQuant(ob.Goal, false, ob.Hints, 0)}
+	q.Assume = append(q.Assume, globalFacts...)
 	for _, a := range ob.Assume {
 		q.Assume = append(q.Assume, instQuant(a, true, ob.Hints, 0))
 	}
